@@ -681,7 +681,8 @@ class Runner:
                     # shrink the subject from both ends while the difference stays
                     sb = bytes.fromhex(subjs[si]) if subjs[si] != "-" else b""
                     changed = True
-                    while changed and sb:
+                    # (a subject of tens of kilobytes is not shrunk byte by byte: it is kept as it is)
+                    while changed and sb and len(sb) <= 4096:
                         changed = False
                         for t in (sb[1:], sb[:-1]):
                             cand2 = " ".join([w[0], w[1], w[2], nms[ni], efs[ei], vf.hexs(t)])
@@ -702,7 +703,8 @@ class Runner:
             info["pattern"] = repr(bytes.fromhex(bw[2]) if bw[2] != "-" else b"")
             info["cflags"] = int(bw[1])
             if len(bw) > 5:
-                info["subject"] = repr(bytes.fromhex(bw[5]) if bw[5] != "-" else b"")
+                sbj = bytes.fromhex(bw[5]) if bw[5] != "-" else b""
+                info["subject"] = repr(sbj) if len(sbj) <= 200 else "<%d bytes: %r ... %r>" % (len(sbj), sbj[:8], sbj[-8:])
         except Exception:
             pass
         ck.report(kind1, info)
